@@ -4,6 +4,8 @@ from __future__ import annotations
 
 import ast
 
+from ..cfg import build_cfg
+from ..flow import LocalDefs
 from ..core import Ctx, Ob, note, ok, unres, viol
 from ..model import ClassInfo, dotted, is_self_attr, unparse, walk_no_nested
 from .r2 import parent_map
@@ -140,4 +142,50 @@ def r5b(ctx: Ctx) -> list[Ob]:
                         c.loc,
                     )
                 )
+    return out
+
+
+# ------------------------------------------------------------------------------- R5c: registered index tensors
+def r5c(ctx: Ctx) -> list[Ob]:
+    """R5c: an index tensor a parameter node registers as a buffer in its constructor (the indices
+    of an index parameter, the fold index of a pointer) *is* the node's function: every return path
+    of ``forward`` reads it (a ``.. is None`` test counts).  A path that answers from something
+    derived once in the constructor (a ``(start, length)`` summary of the indices) computes another
+    selection whenever the summary loses information (unsorted or repeated indices)."""
+    out: list[Ob] = []
+    base = ctx.repo.cls("cirkit.backend.torch.parameters.nodes.TorchParameterNode")
+    for c in ctx.repo.subclasses(base):
+        init = c.methods.get("__init__")
+        fwd = ctx.repo.lookup(c, "forward")
+        if init is None or fwd is None or fwd.is_abstract:
+            continue
+        bufs = []
+        for n in walk_no_nested(init.node):
+            if isinstance(n, ast.Call) and isinstance(n.func, ast.Attribute) and n.func.attr == "register_buffer" and n.args and isinstance(n.args[0], ast.Constant):
+                bufs.append(n.args[0].value)
+        for b in bufs:
+            rets = [r for r in walk_no_nested(fwd.node) if isinstance(r, ast.Return) and r.value is not None]
+            ld = LocalDefs(fwd.node)
+            cfg = build_cfg(fwd.node)
+            bad = None
+            for r in rets:
+                # reads on the return expression itself (through locals) or in a dominating condition
+                names = {x.attr for e in ld.expand(r.value) for x in ast.walk(e) if isinstance(x, ast.Attribute) and isinstance(x.value, ast.Name) and x.value.id == "self"}
+                if b in names:
+                    continue
+                rn = cfg.node_of(r)
+                dom = cfg.dominators().get(rn, set()) if rn is not None else set()
+                cond_reads = False
+                for d in dom:
+                    st_ = cfg.stmts.get(d)
+                    if isinstance(st_, (ast.If, ast.While)) and any(isinstance(x, ast.Attribute) and x.attr == b for x in ast.walk(st_.test)):
+                        cond_reads = True
+                if not cond_reads:
+                    bad = r
+                    break
+            inst = f"buffer:{b}"
+            if bad is None:
+                out.append(ok("R5c", c.qualname, inst, f"every return path of forward reads self.{b}", fwd.loc))
+            else:
+                out.append(viol("R5c", c.qualname, inst, f"`{unparse(bad)[:70]}` answers without reading the registered index tensor self.{b}: whatever it uses instead was derived once in the constructor and cannot stand for arbitrary (unsorted, repeated) indices", f"{fwd.module.relpath}:{bad.lineno}"))
     return out
